@@ -557,10 +557,46 @@ def mock_years(chk, prog):
     chk.floor("C16.i", n, 1, "month/day of a date completed with a literal year")
 
 
+def deepening_progress(chk, prog):
+    """C16.j (initialisation terminates): a `while` loop below _initialize whose test reads a quantity of the Soil object (zSoil) makes
+    progress on every iteration: every path from the loop body's entry back to the loop test passes a store into the profile's
+    thickness column (followed by the refresh of the derived total) - a `for ... if ...: break` that may find nothing to change is
+    not enough."""
+    from ..common import INIT_ROOT
+    n = 0
+    for key in sorted(prog.reachable_from(INIT_ROOT)):
+        fi = prog.funcs.get(key)
+        if fi is None:
+            continue
+        flow = None
+        for w in walk_no_nested(fi.node):
+            if not (isinstance(w, ast.While) and any(isinstance(x, ast.Attribute) and x.attr == "zSoil" for x in ast.walk(w.test))):
+                continue
+            flow = flow or flow_of(fi)
+            cfg = flow.cfg
+            n += 1
+            chk.fn(key)
+            where = f"{fi.module}:{fi.qualname}"
+            tests = [t for t in cfg.live_nodes() if t.kind == "test" and t.stmt is w]
+            body_entry = {t2 for t in tests for t2, l in t.succs if l is True and cfg.nodes[t2].stmt is not w}
+            heads = [k for k in cfg.live_nodes() if k.kind == "loophead" and k.stmt is w]
+            progress = {k.id for k in cfg.live_nodes() if isinstance(k.ast, (ast.Assign, ast.AugAssign)) and any(
+                isinstance(x, ast.Constant) and x.value == "dz" for x in ast.walk(k.ast.targets[0] if isinstance(k.ast, ast.Assign) else k.ast.target))}
+            construct = f"while {norm(w.test)}: progress on every iteration"
+            stuck = any(cfg.paths_exist_avoiding(b, h.id, progress) for b in body_entry for h in heads)
+            if not progress or stuck:
+                chk.violation("C16.j", where, construct, "an iteration of the deepening loop can complete without changing any compartment thickness (no compartment "
+                              "qualifies): the loop never ends, e.g. Soil('SandyLoam', dz=[0.3]*4) under Maize", loc=fi.loc(w))
+            else:
+                chk.ok("C16.j", where, construct, "every path through the body stores into the thickness column")
+    chk.floor("C16.j", n, 1, "loops on the soil depth below _initialize")
+
+
 def run(chk, prog, tier):
     from ._siblings import yield_clock_agreement
     chk.parallel(prog, [rule_a, attribute_definedness, lambda c, p: table_divisors(c, p, "C16.c"), first_element_sites,
                         lambda c, p: yield_clock_agreement(c, p, "C16.e"), readonly_arrays, positional_index_sites])
     no_none_outputs(chk, prog)
     mock_years(chk, prog)
+    deepening_progress(chk, prog)
     chk.exhaustive = True
